@@ -710,7 +710,19 @@ class PureScheduler:                                    # pylint: disable=r0902
             # wait for the forever tasks for a clean exit
             # don't bother to set a timeout, as this is expected
             # to be immediate since all tasks are canceled
-            await asyncio.wait(pending)
+            # if we get cancelled ourselves while waiting, we still need
+            # to wait until all these tasks are over
+            cancelled = None
+            while True:
+                try:
+                    await asyncio.wait(pending)
+                    break
+                except asyncio.CancelledError as exc:
+                    cancelled = exc
+                    for task in pending:
+                        task.cancel()
+            if cancelled is not None:
+                raise cancelled
 
     async def _tidy_tasks_exception(self, tasks):
         """
